@@ -262,6 +262,38 @@ def year_gate_rule(R, lib):
         raise AnalysisError('anchor vanished: no forComponents(year, ...) factory found')
 
 
+def _site_keys(lib, f):
+    """name of an arithmetic node that survives respelling: operator plus the canonical terms (E-GNF) of its operands,
+    locals that are defined once replaced by their definitions, the operands of + and * in a fixed order.  (A finding
+    recorded for `a - b` is the same finding after `x = a; y = b; x - y` or, for +, after commuting.)"""
+    from .gnf import Canon
+    from .ir import walk_stmts
+    assigned = {}
+    for s in walk_stmts(f.body):
+        if s.k == 'assign' and s.a[0].k == 'var':
+            assigned[s.a[0].a[0]] = assigned.get(s.a[0].a[0], 0) + 1
+        elif s.k == 'decl':
+            assigned[s.a[0]] = assigned.get(s.a[0], 0) + (0 if s.a[2] is not None else 1)
+    env = {}
+    for s in walk_stmts(f.body):
+        if s.k == 'decl' and s.a[2] is not None and assigned.get(s.a[0], 0) == 0:
+            try:
+                env[s.a[0]] = Canon(env=dict(env), fold_global=lib.global_value)(s.a[2])
+            except Exception:
+                pass
+
+    def key(e):
+        try:
+            c = Canon(env=dict(env), fold_global=lib.global_value)
+            l, r = repr(c(e.a[1])), repr(c(e.a[2]))
+        except Exception:
+            return show(e).replace(' ', '')
+        if e.a[0] in ('+', '*') and r < l:
+            l, r = r, l
+        return ('(%s%s%s)' % (l, e.a[0], r)).replace(' ', '')
+    return key
+
+
 def overflow_rules(R, lib):
     year_gate_rule(R, lib)
     R.rule('R8','no +, - or * of the date/time value types can leave the range of int32 for any field and argument values', floor=25)
@@ -286,7 +318,9 @@ def overflow_rules(R, lib):
             nfun += 1
             short = '::'.join(parts[1:])
             seen_c = {}
+            keyof = _site_keys(lib, f)
             for (loc, txt), (ok, lo, hi, r1, r2, e) in sorted(hk.sites.items()):
+                txt = keyof(e)
                 k = seen_c.get(txt, 0)
                 seen_c[txt] = k + 1
                 c = '%s:%s%s' % (short, txt.replace('ace_time::', ''), '' if k == 0 else '#%d' % k)
